@@ -652,7 +652,7 @@ MANIFEST = {
     "text": "Histories: all sequences up to depth 3 (4) over 13 events — take the deep copy, define on either side (incl. the same name with another value), enable/disable a redefining context, change the default "
     "system, lazily register a prefixed unit, cache-filling queries — are replayed on a generated registry; the source and the copy must each answer 9 probes like a fresh registry that saw only its own events, "
     "and share no mutable state. Exhaustive: 5 object kinds x 10 unit expressions (with prefixed units registered lazily) x 8 magnitude types (incl. 0-d, 1-d and 2-d ndarrays) x {pickle 0-5, copy, deepcopy, tuple, Quantity(q)} in float/Fraction/Decimal "
-    "registries; a copy / deepcopy / Quantity(q) of an array-valued quantity is a snapshot: 4 in-place operations (*=, +=, ito_root_units, a write into the buffer) on either object leave the other unchanged; all those pickles loaded in a fresh interpreter (attached to the application registry, prefixed units registered first, magnitudes intact); 21 exception instances (constructed and as raised) x "
+    "registries; a copy / deepcopy / Quantity(q) of an array-valued quantity is a snapshot: 4 in-place operations (*=, +=, ito_root_units, a write into the buffer) on either object leave the other unchanged; all those pickles loaded in a fresh interpreter (attached to the application registry, prefixed units registered first, magnitudes intact); every exception class x every argument tuple over an alphabet with the falsy look-alikes of each position ("", empty container, 0, None, empty tuple) plus 10 instances as raised by the library (about 450 instances) x "
     "8 ways (type, fields, args, message); 14 operators x {Quantity, Unit} operand kinds x scalar/array x 4 registry-pair kinds (fresh/fresh, source/deepcopy, deepcopy/source, application/explicit) must raise "
     "ValueError; the lazily built default registry equals an explicit one on 12 probes in fresh interpreters.",
     "note": "Trusted: pickle/copy themselves; the probe sets. == across registries is not asserted (the property names arithmetic and ordering). Duck arrays other than ndarray are outside.",
